@@ -97,8 +97,8 @@ def b(self):
 	}
 	build("//:a")
 	build("//:b")
-	os.Remove(src)                                   // the shared source disappears
-	build("//:a")                                    // only the sibling is built meanwhile
+	os.Remove(src)                                  // the shared source disappears
+	build("//:a")                                   // only the sibling is built meanwhile
 	os.WriteFile(src, []byte("content X\n"), 0o644) // ... and comes back unchanged
 	ex := build("//:b")
 	c.Eval(id)
@@ -242,6 +242,15 @@ func historyCase(c *core.Ctx, which string, i, nsteps int) {
 				kind = irrelevantKinds[r.IntN(len(irrelevantKinds))]
 			}
 			e.Edit(kind)
+		}
+		// now and then a garbage collection between two builds (after a full load, or an index-preferring one as `dawn gc`
+		// does): it must not change what the next build does
+		if step > 0 && r.IntN(10) == 0 {
+			if g := e.GC(r.IntN(2) == 0); g.LoadErr != "" || g.GCErr != "" {
+				c.Violation(id, "", "gc-fails", map[string]any{"error": g.LoadErr + g.GCErr, "history": e.Script()})
+				return
+			}
+			c.Count("collections_between_builds", 1)
 		}
 		// build
 		o := pj.BuildOpt{}
